@@ -77,6 +77,7 @@ type storeHist struct {
 	// soak mode: oracles evaluated at checkpoints only
 	checkEvery int
 	stepN      int
+	kept       []*mon.KeptProto // protobuf messages taken earlier and not consumed yet
 	// quiet histories: most events are not followed by any query (queries reorganise stores, e.g. sort and
 	// compact buffers, and would hide state that only unobserved sequences of events reach)
 	quietP float64
@@ -218,8 +219,24 @@ func (h *storeHist) step() {
 		h.pool = append([]*mon.MonStore{}, keep...)
 	}
 	r, s := h.r, h.main
-	op := r.Pick(30, 18, 6, 10, 5, 4, 6, 6, 3, 2, 4)
+	op := r.Pick(30, 18, 6, 10, 5, 4, 6, 6, 3, 2, 4, 3)
 	switch op {
+	case 11:
+		// a protobuf message is a value of its own: taken now, consumed some events later (the store it came
+		// from has been added to, reweighted, cleared and refilled in between)
+		h.opKinds["Proto"] = true
+		if len(h.kept) > 0 && (len(h.kept) >= 3 || r.Bool()) {
+			k := h.kept[0]
+			lo, nonEmpty := k.M.Min()
+			hi, _ := k.M.Max()
+			if (!nonEmpty || (h.inWindow(s.Spec, lo) && h.inWindow(s.Spec, hi))) && h.budget.Charge(k.M.Total()) {
+				h.kept = h.kept[1:]
+				s.MergeKeptProto(k)
+				h.c.Count("proto.kept_message_consumed_later", 1)
+			}
+		} else if h.budget.Charge(s.M.Total()) {
+			h.kept = append(h.kept, s.ProtoKeep())
+		}
 	case 0:
 		h.opKinds["Add"] = true
 		h.budget.Charge(1)
